@@ -32,8 +32,8 @@ OUTSIDE = ['more than 3 concurrent callers', 'OS-level behaviour of filelock and
            'replay uses the same generator forms (no real threads)']
 REACH = ['returns-completed-value', 'quiescent-entry-complete', 'late-caller-does-not-recompute']
 
-GEN_FUNCS = {'get', 'get_or_compute', 'save_value', 'load_value'}
-ENV_CALLS = {'exists', 'open', 'load_value', 'save_value', 'dump', 'load', 'to_pickle', 'read_pickle', 'save'}
+GEN_FUNCS = {'get', 'get_or_compute', 'save_value', 'load_value', 'filepath'}
+ENV_CALLS = {'exists', 'mkdir', 'open', 'load_value', 'save_value', 'dump', 'load', 'to_pickle', 'read_pickle', 'save'}
 
 
 class Gen(ast.NodeTransformer):
@@ -44,6 +44,7 @@ class Gen(ast.NodeTransformer):
         if node.name not in GEN_FUNCS or self.infn:
             return node
         self.infn = True
+        self.fn = node.name
         node.body = self.block(node.body)
         self.infn = False
         return node
@@ -74,7 +75,8 @@ class Gen(ast.NodeTransformer):
             plain_with = isinstance(s, ast.With) and not lock_with
             s2 = self.stmt(s)
             if env and not lock_with:
-                out.append(ast.Expr(ast.Yield(ast.Constant('pt'))))
+                # (scheduling points inside filepath() only matter while the entry's directory does not exist yet)
+                out.append(ast.Expr(ast.Yield(ast.Constant('pt-dir' if self.fn == 'filepath' else 'pt'))))
             if plain_with:
                 s2.body.append(ast.Expr(ast.Yield(ast.Constant('pre-close'))))
             out.extend(s2 if isinstance(s2, list) else [s2])
@@ -108,7 +110,7 @@ class Gen(ast.NodeTransformer):
         class C(ast.NodeTransformer):
             def visit_Call(self, n):
                 self.generic_visit(n)
-                if isinstance(n.func, ast.Attribute) and n.func.attr in ('save_value', 'load_value') and \
+                if isinstance(n.func, ast.Attribute) and n.func.attr in ('save_value', 'load_value', 'filepath') and \
                         isinstance(n.func.value, ast.Name) and n.func.value.id == 'self':
                     return ast.YieldFrom(n)
                 return n
@@ -131,6 +133,7 @@ class World:
     def __init__(self, ctx):
         self.ctx = ctx
         self.files = {}
+        self.dirs = set()
         self.locks = {}
         self.cur = None
         self.nview = 0
@@ -157,6 +160,14 @@ def parse(s, tag):
     if tag + repr(v) + '$' != s:
         raise ValueError('corrupt file')
     return v
+
+
+def drain(gen):
+    try:
+        while True:
+            gen.send(None)
+    except StopIteration as s:
+        return s.value
 
 
 def build_module(W):
@@ -202,14 +213,27 @@ def build_module(W):
         def __repr__(self):
             return f'MPath({self.p})'
 
-        def mkdir(self, **k):
-            pass
+        def mkdir(self, mode=0o777, parents=False, exist_ok=False):
+            if self.p in W.dirs:
+                if not exist_ok:
+                    raise FileExistsError(self.p)
+                return
+            parent = self.p.rsplit('/', 1)[0]
+            if parent and parent not in W.dirs:
+                if not parents:
+                    raise FileNotFoundError(parent)
+                MPath(parent).mkdir(parents=True, exist_ok=True)
+            W.dirs.add(self.p)
 
         def exists(self):
+            if self.p in W.dirs:
+                return True
             f = W.files.get(self.p)
             return f is not None and f.content is not None
 
         def open(self, mode='r', encoding=None):
+            if 'w' in mode and self.p.rsplit('/', 1)[0] not in W.dirs:
+                raise FileNotFoundError(self.p)
             f = W.files.setdefault(self.p, MFile())
             return MHandle(f, mode)
 
@@ -293,7 +317,7 @@ def build_module(W):
 def bounds(tier):
     return {'callers': '2' if tier == 'quick' else '2 (both caches, all ordered pairs) and 3 (JSON cache, all multisets with at least one writer and one get)',
             'caches': ['JsonCache', 'DataFrameCache'],
-            'pre_states': ['absent', 'intact', 'empty', 'torn'], 'operations': ['get', 'get_or_compute', 'get_or_compute(force)'],
+            'pre_states': ['absent', 'intact', 'empty', 'torn', "nodir (the entry's directory does not exist yet)"], 'operations': ['get', 'get_or_compute', 'get_or_compute(force)'],
             'reader_views_of_a_file_being_written': 3}
 
 
@@ -301,7 +325,7 @@ def cases(tier):
     out = []
     import itertools
     for ctype in ('json', 'pd'):
-        for pre in ('absent', 'intact', 'empty', 'torn'):
+        for pre in ('absent', 'intact', 'empty', 'torn', 'nodir'):
             for ops in itertools.product(range(3), repeat=2):
                 out.append((ctype, pre, ops))
     if tier == 'thorough':
@@ -320,11 +344,13 @@ def make_harness(case, tier):
         W = World(ctx)
         mod = build_module(W)
         cache = (mod.JsonCache if ctype == 'json' else mod.DataFrameCache)('/c')
-        fp = str(cache.filepath('k'))
+        fp = str(drain(cache.filepath('k')))
+        if pre == 'nodir':
+            W.dirs.discard(fp.rsplit('/', 1)[0])
         mk = (lambda v: v) if ctype == 'json' else (lambda v: mod.Frame(v))
         un = (lambda v: v) if ctype == 'json' else (lambda v: v.v if hasattr(v, 'v') else v)
         full_old = ('J' + repr(('k', 'old')) + '$') if ctype == 'json' else ('P' + repr('old') + '$')
-        if pre != 'absent':
+        if pre not in ('absent', 'nodir'):
             W.files[fp] = MFile()
             W.files[fp].content = {'intact': full_old, 'empty': '', 'torn': full_old[:len(full_old) // 2]}[pre]
         computed, completed = [], []
@@ -365,6 +391,8 @@ def make_harness(case, tier):
             W.cur = t
             try:
                 y = gens[t].send(None)
+                while y == 'pt-dir' and pre != 'nodir':
+                    y = gens[t].send(None)
                 if isinstance(y, tuple) and y[0] == 'blocked':
                     blocked[t] = y[1]
                 else:
